@@ -235,7 +235,7 @@ def summarise(records, tier, seed):
         "evaluations": ag["evaluations"],
         "distinct_nontrivial": len(ag["hashes"]),
         "rule": "rate-shape catalogue (linear with parameter coefficient placed around delta, -1/tau with tau 1e-3..1e12, gates with frozen intermediates, functions/conditionals/powers of the own "
-        "state, absent, floor/Mod) + random models, x backend {numpy, jax, C} x delta {1e-8, 1e-3, 0.5}; evaluation = one generated call; non-trivial = >= 2 updates compared with the formula "
+        "state, absent, floor/Mod) + random models, x backend {numpy, jax, C} x delta {1e-8, 1e-3, 0.5} (+ delta = 0 with |g| <= 5e-9 and steps of 1e8..1e9); evaluation = one generated call; non-trivial = >= 2 updates compared with the formula "
         "(g from the reference's own forward-mode AD) of which >= 1 on the RL branch; distinct by (structural hash, backend, delta)",
         "samples": C.pick_samples(records),
         "per_class_cases": ag["classes"],
